@@ -194,18 +194,63 @@ func init() {
 				return err
 			}
 			r.Analysed = len(reach)
+			// helpers that hand the rebuilt sum on to their caller (round 7, refactoring N1-r8):
+			// the comparison is then the caller's obligation
+			handsOn := map[*ssa.Function]int{}
 			for _, fn := range sortedFuncs(reach) {
 				for _, a := range callsTo(fn, sbi) {
 					call, ok := a.(*ssa.Call)
 					if !ok {
 						continue
 					}
-					what := "rebuilt block-index sum must equal the sum recorded in the received table before the table index is written"
-					key := callKey(fn, a)
-					// the sum result (#0)
-					var sumVals []ssa.Value
+					var sv []ssa.Value
 					for _, ref := range *call.Referrers() {
 						if ex, ok := ref.(*ssa.Extract); ok && ex.Index == 0 {
+							sv = append(sv, ex)
+						}
+					}
+					fw := forward(sv, fwdOpts{noBinOp: true})
+					for _, ret := range returnsOf(fn) {
+						for k := range ret.Results {
+							if fw[retVal(ret, k)] {
+								handsOn[fn] = k
+							}
+						}
+					}
+				}
+			}
+			type sumSite struct {
+				c   ssa.CallInstruction
+				idx int
+			}
+			for _, fn := range sortedFuncs(reach) {
+				var sites []sumSite
+				if _, isHelper := handsOn[fn]; !isHelper {
+					for _, a := range callsTo(fn, sbi) {
+						sites = append(sites, sumSite{a, 0})
+					}
+				} else {
+					r.note("%s hands the rebuilt sum on to its callers; judged there", funcName(fn))
+				}
+				eachCall(fn, func(c ssa.CallInstruction) {
+					if h := c.Common().StaticCallee(); h != nil {
+						if k, ok := handsOn[h]; ok && h != fn {
+							sites = append(sites, sumSite{c, k})
+						}
+					}
+				})
+				for _, site := range sites {
+					a := site.c
+					call, ok := a.(*ssa.Call)
+					if !ok {
+						continue
+					}
+					what := "rebuilt block-index sum must equal the sum recorded in the received table before the table index is written"
+					key := callKey(fn, a)
+					// the sum result
+					var sumVals []ssa.Value
+					for _, ref := range *call.Referrers() {
+						if ex, ok := ref.(*ssa.Extract); ok && ex.Index == site.idx {
 							sumVals = append(sumVals, ex)
 						}
 					}
